@@ -80,4 +80,20 @@ instance (rnd : Rat → Rat) (x : List Val) (timings : Option (List Rat)) :
     Decidable (FaithfulConv rnd x timings) := by
   unfold FaithfulConv; infer_instance
 
+/-- all hypotheses of `class_f32_pow2_invariant` for the natural graph, as one decidable test
+(driver request `nouflc`): no sample / timing is subnormal before or after the rescaling (so the
+conversions to `FIELD` commute with it; with the default timings only the values are rescaled,
+`c = 0`) and `NoUflOn` holds for the stored data -/
+def noUflConvB (x : List Val) (tm : Option (List Rat)) (a c : Int) : Bool :=
+  x.all (fun v => match v with
+    | some r => noUflB r a
+    | none => true) &&
+  (match tm with
+    | some t => t.all (fun r => noUflB r c)
+    | none => c == 0) &&
+  decide (NoUflOn (toField rndF32 x)
+    (match tm with
+      | some t => t.map rndF32
+      | none => (defaultTimings x.length).map rndF32) x.length a c)
+
 end Pyunicorn.Visibility
